@@ -9,8 +9,10 @@ import (
 	"flag"
 	"fmt"
 	"go/ast"
+	"go/importer"
 	"go/parser"
 	"go/token"
+	"go/types"
 	"os"
 	"path/filepath"
 	"sort"
@@ -160,70 +162,84 @@ func main() {
 	}
 	sort.Strings(f.Vars)
 
-	// direct global reads / writes / static calls per function
+	// direct global reads / writes / static calls per function, resolved with go/types
+	var astFiles []*ast.File
 	for _, name := range files {
-		for _, d := range pkg.Files[name].Decls {
+		astFiles = append(astFiles, pkg.Files[name])
+	}
+	info := &types.Info{Uses: map[*ast.Ident]types.Object{}, Defs: map[*ast.Ident]types.Object{}, Selections: map[*ast.SelectorExpr]*types.Selection{}}
+	conf := types.Config{Importer: importer.ForCompiler(fset, "source", nil), Error: func(error) {}}
+	tpkg, _ := conf.Check("github.com/clbanning/mxj/v2", fset, astFiles, info)
+	if tpkg == nil {
+		fmt.Fprintln(os.Stderr, "extract: type check failed")
+		os.Exit(1)
+	}
+	funcName := func(fn *types.Func) string {
+		sig, _ := fn.Type().(*types.Signature)
+		if sig != nil && sig.Recv() != nil {
+			t := sig.Recv().Type()
+			if p, ok := t.(*types.Pointer); ok {
+				t = p.Elem()
+			}
+			if n, ok := t.(*types.Named); ok {
+				return n.Obj().Name() + "." + fn.Name()
+			}
+		}
+		return fn.Name()
+	}
+	isGlobal := func(o types.Object) bool {
+		v, ok := o.(*types.Var)
+		return ok && v.Pkg() == tpkg && v.Parent() == tpkg.Scope()
+	}
+	for _, af := range astFiles {
+		for _, d := range af.Decls {
 			fd, ok := d.(*ast.FuncDecl)
 			if !ok || fd.Body == nil {
 				continue
 			}
-			fn := fd.Name.Name
-			if fd.Recv != nil && len(fd.Recv.List) == 1 {
-				t := fd.Recv.List[0].Type
-				if st, ok := t.(*ast.StarExpr); ok {
-					t = st.X
-				}
-				if id, ok := t.(*ast.Ident); ok {
-					fn = id.Name + "." + fn
-				}
+			fobj, _ := info.Defs[fd.Name].(*types.Func)
+			if fobj == nil {
+				continue
 			}
-			locals := map[string]bool{}
-			if fd.Type.Params != nil {
-				for _, p := range fd.Type.Params.List {
-					for _, n := range p.Names {
-						locals[n.Name] = true
-					}
-				}
-			}
+			fn := funcName(fobj)
 			w, r, c := map[string]bool{}, map[string]bool{}, map[string]bool{}
+			written := map[*ast.Ident]bool{}
 			ast.Inspect(fd.Body, func(n ast.Node) bool {
 				switch x := n.(type) {
 				case *ast.AssignStmt:
 					for _, l := range x.Lhs {
 						if id, ok := l.(*ast.Ident); ok {
-							if x.Tok == token.DEFINE {
-								locals[id.Name] = true
-							} else if globals[id.Name] && !locals[id.Name] {
+							if o := info.Uses[id]; o != nil && isGlobal(o) {
 								w[id.Name] = true
+								if x.Tok == token.ASSIGN {
+									written[id] = true // plain store: not a read
+								}
 							}
 						}
 					}
 				case *ast.IncDecStmt:
-					if id, ok := x.X.(*ast.Ident); ok && globals[id.Name] && !locals[id.Name] {
-						w[id.Name] = true
-					}
-				case *ast.ValueSpec:
-					for _, n := range x.Names {
-						locals[n.Name] = true
-					}
-				case *ast.RangeStmt:
-					if x.Tok == token.DEFINE {
-						if id, ok := x.Key.(*ast.Ident); ok {
-							locals[id.Name] = true
-						}
-						if id, ok := x.Value.(*ast.Ident); ok {
-							locals[id.Name] = true
+					if id, ok := x.X.(*ast.Ident); ok {
+						if o := info.Uses[id]; o != nil && isGlobal(o) {
+							w[id.Name] = true
 						}
 					}
 				case *ast.CallExpr:
 					switch fx := x.Fun.(type) {
 					case *ast.Ident:
-						c[fx.Name] = true
+						if fo, ok := info.Uses[fx].(*types.Func); ok && fo.Pkg() == tpkg {
+							c[funcName(fo)] = true
+						}
 					case *ast.SelectorExpr:
-						c["."+fx.Sel.Name] = true
+						if sel := info.Selections[fx]; sel != nil {
+							if fo, ok := sel.Obj().(*types.Func); ok && fo.Pkg() == tpkg {
+								c[funcName(fo)] = true
+							}
+						} else if fo, ok := info.Uses[fx.Sel].(*types.Func); ok && fo.Pkg() == tpkg {
+							c[funcName(fo)] = true
+						}
 					}
 				case *ast.Ident:
-					if globals[x.Name] && !locals[x.Name] {
+					if o := info.Uses[x]; o != nil && isGlobal(o) && !written[x] {
 						r[x.Name] = true
 					}
 				}
@@ -286,12 +302,72 @@ func main() {
 	sort.Strings(ws)
 	sb.WriteString(strings.Join(ws, ",\n"))
 	sb.WriteString("\n]\n\nend Mxj.Generated\n")
+	sb1 := sb.String()
+	sb.Reset()
+	sb.WriteString("/- GENERATED by /verif/extract from /repo's current source on every run. Do not edit, do not commit. -/\nnamespace Mxj.Generated\n\n")
+
+	// ---- per-function facts with resolved callees, and closure certificates for root sets
+	names := make([]string, 0, len(f.Reads))
+	for fn := range f.Reads {
+		names = append(names, fn)
+	}
+	sort.Strings(names)
+	resolved := map[string][]string{}
+	for _, fn := range names {
+		resolved[fn] = f.Calls[fn]
+	}
+	sb.WriteString("/-- per function: package-level variables read, written, and callees (methods resolved by\n    name to every receiver: an over-approximation) -/\ndef funcFacts : List (String × List String × List String × List String) := [\n")
+	for i, fn := range names {
+		sep := ","
+		if i == len(names)-1 {
+			sep = ""
+		}
+		sb.WriteString(fmt.Sprintf("  (%q, [%s], [%s], [%s])%s\n", fn, quoteJoin(f.Reads[fn]), quoteJoin(f.Writes[fn]), quoteJoin(resolved[fn]), sep))
+	}
+	sb.WriteString("]\n\n")
+	closure := func(roots []string) []string {
+		seen := map[string]bool{}
+		var stack []string
+		for _, r := range roots {
+			if _, ok := f.Reads[r]; ok && !seen[r] {
+				seen[r] = true
+				stack = append(stack, r)
+			}
+		}
+		for len(stack) > 0 {
+			x := stack[len(stack)-1]
+			stack = stack[:len(stack)-1]
+			for _, c := range resolved[x] {
+				if !seen[c] {
+					seen[c] = true
+					stack = append(stack, c)
+				}
+			}
+		}
+		return keysOf(seen)
+	}
+	rootSets := [][2]interface{}{
+		{"seqJsonRoots", []string{"NewMapXmlSeq", "NewMapFormattedXmlSeq", "NewMapXmlSeqReader", "NewMapXmlSeqReaderRaw", "MapSeq.Xml", "MapSeq.XmlWriter", "Map.Json", "Map.JsonIndent", "Map.JsonWriter", "Map.JsonWriterRaw", "Map.JsonIndentWriter", "Map.JsonIndentWriterRaw", "NewMapJson", "NewMapJsonReader", "NewMapJsonReaderRaw", "HandleJsonReader", "HandleJsonReaderRaw", "Map.Copy"}},
+		{"decoderRoots", []string{"NewMapXml", "NewMapXmlReader", "NewMapXmlReaderRaw", "HandleXmlReader", "HandleXmlReaderRaw", "NewMapXmlSeq", "NewMapFormattedXmlSeq", "NewMapXmlSeqReader", "NewMapXmlSeqReaderRaw", "NewMapJson", "NewMapJsonReader", "NewMapJsonReaderRaw", "NewMapGob"}},
+		{"queryRoots", []string{"Map.ValuesForKey", "Map.ValueForKey", "Map.ValuesForPath", "Map.ValueForPath", "Map.ValueForPathString", "Map.ValueOrEmptyForPathString", "Map.PathsForKey", "Map.PathForKeyShortest", "Map.Exists", "Map.LeafNodes", "Map.LeafPaths", "Map.LeafValues", "Map.Elements", "Map.Attributes", "Map.Root", "Map.Xml", "Map.XmlIndent", "Map.XmlWriter", "Map.XmlIndentWriter", "MapSeq.Xml", "MapSeq.XmlIndent", "Map.Json", "Map.JsonIndent", "Map.Gob", "Map.Copy", "Map.StringIndent", "Map.StringIndentNoTypeInfo", "AnyXml", "AnyXmlIndent", "NewMapXml", "NewMapXmlSeq", "NewMapJson"}},
+	}
+	for _, rs := range rootSets {
+		name := rs[0].(string)
+		roots := rs[1].([]string)
+		var present []string
+		for _, r := range roots {
+			if _, ok := f.Reads[r]; ok {
+				present = append(present, r)
+			}
+		}
+		sb.WriteString(fmt.Sprintf("def %s : List String := [%s]\n", name, quoteJoin(present)))
+		sb.WriteString(fmt.Sprintf("/-- certificate: the extractor's transitive closure of `%s` under the callee relation -/\ndef %sClosure : List String := [%s]\n\n", name, name, quoteJoin(closure(present))))
+	}
+	sb.WriteString("end Mxj.Generated\n")
 	if *out != "" {
 		os.MkdirAll(filepath.Dir(*out), 0o755)
-		if err := os.WriteFile(*out, []byte(sb.String()), 0o644); err != nil {
-			fmt.Fprintln(os.Stderr, err)
-			os.Exit(1)
-		}
+		writeIfChanged(*out, sb1)
+		writeIfChanged(filepath.Join(filepath.Dir(*out), "CallFacts.lean"), sb.String())
 	}
 	fmt.Printf("extract: %d escape rows, %d defaults, %d consts, %d functions\n", len(f.EscapeTable), len(f.Defaults), len(f.Consts), len(f.Writes))
 }
@@ -311,4 +387,16 @@ func quoteJoin(ss []string) string {
 		q[i] = strconv.Quote(s)
 	}
 	return strings.Join(q, ", ")
+}
+
+// writeIfChanged keeps the file (and its mtime) when the content is the same, so that lake
+// does not rebuild what depends on it.
+func writeIfChanged(path, content string) {
+	if old, err := os.ReadFile(path); err == nil && string(old) == content {
+		return
+	}
+	if err := os.WriteFile(path, []byte(content), 0o644); err != nil {
+		fmt.Fprintln(os.Stderr, err)
+		os.Exit(1)
+	}
 }
